@@ -177,7 +177,42 @@ Definition dec_dval (j : jv) : option dval :=
   match j with JInt z => Some (DInt z) | JStr s => Some (DStr s) | _ => None end.
 Definition pick (ks : list string) (kv : list (string * dval)) : option (list (string * dval)) :=
   mapM (fun k => match aget k kv with Some v => Some (k, v) | None => None end) ks.
-Definition dec_coord (u : uctx) (j : jv) : option coord :=
+(* `records` handling of from_simple, given the standardized data ID (group g, values vals, full or not).
+   attach_records: the code as it is now (`if simple.records is not None:` + dict.fromkeys(elements) + update):
+   every element of the group gets a key, None where no record travelled; keys that are not elements are kept. *)
+Definition dec_record_items (u : uctx) (rs : list (string * jv)) : option (list (string * drec)) :=
+  mapM (fun p => match dec_rec u (snd p) with Some r => Some (fst p, r) | None => None end) rs.
+Definition fill_records (elems : list string) (dec : list (string * drec)) : list (string * option drec) :=
+  map (fun e => (e, aget e dec)) elems
+  ++ map (fun p => (fst p, Some (snd p))) (filter (fun p => negb (mem (fst p) elems)) dec).
+Definition attach_records (u : uctx) (g : grp) (vals : list (string * dval)) (full : bool) (jr : option jv) : option coord :=
+  match jr with
+  | None => Some {| c_grp := g; c_vals := vals; c_recs := None |}
+  | Some (JObj rs) =>
+      if full then
+        match dec_record_items u rs with
+        | Some dec => Some {| c_grp := g; c_vals := vals; c_recs := Some (fill_records (g_elems g) dec) |}
+        | None => None
+        end
+      else None   (* records on a required-only data ID: outside the image of to_simple, not modelled *)
+  | Some _ => None
+  end.
+(* the variant before commit 0b78af8 (`if simple.records:` + only the records that travelled); kept so that the
+   refutation theorem documents what a revert of the fix breaks *)
+Definition attach_records_prefix (u : uctx) (g : grp) (vals : list (string * dval)) (full : bool) (jr : option jv) : option coord :=
+  match jr with
+  | None | Some (JObj []) => Some {| c_grp := g; c_vals := vals; c_recs := None |}
+  | Some (JObj rs) =>
+      if full then
+        match dec_record_items u rs with
+        | Some dec => Some {| c_grp := g; c_vals := vals; c_recs := Some (map (fun p => (fst p, Some (snd p))) dec) |}
+        | None => None
+        end
+      else None
+  | Some _ => None
+  end.
+Definition dec_coord_with (attach : uctx -> grp -> list (string * dval) -> bool -> option jv -> option coord)
+                          (u : uctx) (j : jv) : option coord :=
   match jfield "dataId" j with
   | Some (JObj o) =>
       match mapM (fun p => match dec_dval (snd p) with Some v => Some (fst p, v) | None => None end) o with
@@ -185,22 +220,11 @@ Definition dec_coord (u : uctx) (j : jv) : option coord :=
           match conform u (map fst kv) with                             (* DimensionGroup(universe, mapping.keys()) *)
           | Some g =>
               match g_names g with
-              | [] => Some {| c_grp := g; c_vals := []; c_recs := Some [] |}    (* make_empty: full and expanded *)
+              | [] => Some {| c_grp := g; c_vals := []; c_recs := Some [] |}    (* make_empty: full and expanded; expanded() returns self *)
               | _ =>
                   let full := subset (g_names g) (map fst kv) in
                   match pick (if full then g_req g ++ g_impl g else g_req g) kv with
-                  | Some vals =>
-                      match jfield "records" j with
-                      | None | Some (JObj []) => Some {| c_grp := g; c_vals := vals; c_recs := None |}   (* `if simple.records:` *)
-                      | Some (JObj rs) =>
-                          if full then
-                            match mapM (fun p => match dec_rec u (snd p) with Some r => Some (fst p, Some r) | None => None end) rs with
-                            | Some recs => Some {| c_grp := g; c_vals := vals; c_recs := Some recs |}
-                            | None => None
-                            end
-                          else None   (* records on a required-only data ID: outside the image of to_simple, not modelled *)
-                      | Some _ => None
-                      end
+                  | Some vals => attach u g vals full (jfield "records" j)
                   | None => None                                         (* DimensionNameError *)
                   end
               end
@@ -210,19 +234,14 @@ Definition dec_coord (u : uctx) (j : jv) : option coord :=
       end
   | _ => None
   end.
-(* documented state after a round trip: minimal drops the records; the full form keeps them -- but records
-   that are None are not written, and from_simple does not put them back (faithful to the code) *)
-Definition kept_records (rs : list (string * option drec)) : list (string * option drec) :=
-  filter (fun p => match snd p with Some _ => true | None => false end) rs.
+Definition dec_coord : uctx -> jv -> option coord := dec_coord_with attach_records.
+Definition dec_coord_prefix : uctx -> jv -> option coord := dec_coord_with attach_records_prefix.
+(* documented state after a round trip: minimal drops the records (the empty data ID stays expanded); the full
+   form returns the data ID as it was, None records included *)
 Definition expected_coord (minimal : bool) (c : coord) : coord :=
   match g_names (c_grp c) with
   | [] => c
-  | _ => {| c_grp := c_grp c; c_vals := c_vals c;
-            c_recs := if minimal then None
-                      else match c_recs c with
-                           | None => None
-                           | Some rs => match kept_records rs with [] => None | k => Some k end
-                           end |}
+  | _ => {| c_grp := c_grp c; c_vals := c_vals c; c_recs := if minimal then None else c_recs c |}
   end.
 (* __reduce__: (cls, (dimensions, values[, records])) -- everything, including None records *)
 Definition reduce_coord (c : coord) : grp * list (string * dval) * option (list (string * option drec)) :=
